@@ -16,22 +16,29 @@
 (*     C11a  reported[t] = Fresh(t)                                   for every requested t             *)
 (*     C11b  t not executed  =>  a passing run of t on exactly Inputs(t) exists earlier in the history  *)
 (*     C11c  Fresh(t) = fail =>  t executed (a failing result is never reused)                          *)
+(*   An invocation may carry TEST ARGUMENTS (`plz test //p:t1 d1 d2`): the command then checks only the *)
+(*   named paths among those it reads, i.e. it runs PART of the test.  Such a run is reported as what   *)
+(*   a fresh run with the same arguments gives, and its result must never be stored: "a passing run"   *)
+(*   in C11b means a passing FULL run (no arguments) on the current inputs.                             *)
 (* Algorithm level: src/test/test_step.go needToRun + build.RuntimeHash: the result file of the last    *)
 (*   passing run carries RuntimeHash = <<RuleHash(runtime) of the definition, hashes of the runtime     *)
 (*   files in IterRuntimeFiles order>>; a result is reused iff the target is Unchanged/Reused and the   *)
 (*   stored hash equals the current one; failing runs store nothing.  Hashes are abstract and           *)
-(*   injective EXCEPT for two recorded flaws of the code:                                               *)
-(*     Flaw_Paths     RuntimeHash covers the CONTENTS of the runtime files, not their paths (the        *)
-(*                    definition hash names data labels, not the files they produce; a directory is     *)
-(*                    hashed as the contents of its files)                                              *)
-(*     Flaw_NoOutput  no_test_output is covered by no hash                                              *)
+(*   injective EXCEPT for the flaw constants:                                                            *)
+(*     Flaw_DirNames  a directory is hashed as the contents of its files, not their names (src/fs/hash.go,*)
+(*                    C09; still true of the code: known finding)                                       *)
+(*     Flaw_Paths     RuntimeHash covers the CONTENTS of the runtime files, not their paths (repaired   *)
+(*                    in the code; kept as a *_known configuration)                                     *)
+(*     Flaw_NoOutput  no_test_output is covered by no hash (repaired; kept as a *_known configuration)  *)
+(*     Flaw_Args      a passing run WITH test arguments stores its result like a full run (a seeded     *)
+(*                    defect class: the model then violates C11)                                        *)
 (* Histories (edits / plz-out deletion / test invocations) are carried in `hist` with the expected      *)
 (* observation of every invocation and printed for replay against the real plz binary.                 *)
 EXTENDS Naturals, Sequences, FiniteSets, TLC, Json
 CONSTANTS MaxEdits,       \* bound on the number of edit steps in a history
-          Flaw_Paths, Flaw_NoOutput,
+          Flaw_DirNames, Flaw_Paths, Flaw_NoOutput, Flaw_Args,
           Shape,          \* 0: every initial repository; 1..3: only that one
-          Menu,           \* "all": every edit; "nopath": no rename edits; "sound": neither renames nor no_test_output flips
+          Menu,           \* "all": every edit; "nodir": no rename inside the data directory; "sound": no renames, no no_test_output flips
           EmitAll         \* TRUE: print every history ending in a test run; FALSE: only those at the edit bound
 Tests == {1, 2}
 Files == {"d1", "d2", "s", "b"}
@@ -46,9 +53,10 @@ VARIABLES file,      \* source file -> content
           bin,       \* algorithm: NoBin | content the test binary of t2 in plz-out was built from
           executed,  \* tests whose command ran in the last invocation
           reported,  \* last invocation: test -> "pass" | "fail" | "-"
-          passed,    \* history: test -> set of Inputs on which a passing run of that test was executed
+          passed,    \* history: test -> set of Inputs on which a passing FULL run of that test was executed
+          ares,      \* ghost: test -> Nil | runtime hash at its last run if that was a passing run with arguments
           edits, hist
-vars == <<file, gout, ddn, tdef, res, bin, executed, reported, passed, edits, hist>>
+vars == <<file, gout, ddn, tdef, res, bin, executed, reported, passed, ares, edits, hist>>
 
 HasBin(t) == t = 2
 Entry(p, c) == [p |-> p, c |-> c]
@@ -61,7 +69,10 @@ Vis(t) ==
   \cup (IF "dd" \in tdef[t].data THEN {Entry(DDPath, "ok")} ELSE {})
   \cup (IF "g" \in tdef[t].data \cup tdef[t].rdeps THEN {Entry(gout, file["s"])} ELSE {})
   \cup (IF HasBin(t) THEN {Entry("bin", file["b"])} ELSE {})
-Fresh(t) == IF tdef[t].noout /\ \A x \in tdef[t].reads : Entry(x, "ok") \in Vis(t) THEN "pass" ELSE "fail"
+\* A == {}: the full test; otherwise only the named paths among those the command reads are checked
+Checked(t, A) == IF A = {} THEN tdef[t].reads ELSE tdef[t].reads \cap A
+FreshA(t, A) == IF tdef[t].noout /\ \A x \in Checked(t, A) : Entry(x, "ok") \in Vis(t) THEN "pass" ELSE "fail"
+Fresh(t) == FreshA(t, {})
 \* the runtime inputs the statement lists: test command, test binary, data files, runtime dependencies
 Inputs(t) == [cmd |-> tdef[t].reads, files |-> Vis(t)]
 
@@ -75,7 +86,11 @@ RtSeq(t) ==
   \o (IF "d2" \in tdef[t].data THEN <<Entry("d2", file["d2"])>> ELSE <<>>)
   \o (IF "dd" \in tdef[t].data THEN <<Entry(DDPath, "ok")>> ELSE <<>>)
   \o (IF "g" \in tdef[t].data /\ "g" \notin tdef[t].rdeps THEN <<Entry(gout, file["s"])>> ELSE <<>>)
-HashEntry(e) == IF Flaw_Paths THEN e.c ELSE e
+\* the repaired code hashes the runtime path of every item; for the directory that is the path of the directory,
+\* and the directory hash itself still ignores the names of its entries
+IsDirEntry(e) == e.p \in {"ddx", "ddy"}
+HashEntry(e) == IF Flaw_Paths THEN e.c
+                ELSE IF IsDirEntry(e) /\ Flaw_DirNames THEN Entry("dd", e.c) ELSE e
 \* RuleHash(runtime = true): label, declared dependencies, data labels, test command (+ what the flaw drops)
 RuleHashRt(t) == [t |-> t, data |-> tdef[t].data, rdeps |-> tdef[t].rdeps, cmd |-> tdef[t].reads,
                   noout |-> IF Flaw_NoOutput THEN TRUE ELSE tdef[t].noout]
@@ -95,16 +110,19 @@ Datas1 == {{"d1", "d2"}, {"d1", "d2", "g"}, {"d1", "d2", "dd"}, {"d1", "d2", "g"
 Reads(t) == IF t = 1 THEN {{"d1"}, {"d1", "d2"}, {"d1", "ga"}, {"d1", "ddx"}}
             ELSE {{"d2"}, {"d2", "bin"}, {"d2", "ga"}}
 Reqs == {{1, 2}, {1}}
-Renames == Menu = "all"
-Flips == Menu \in {"all", "nopath"}
+Renames == Menu \in {"all", "nodir"}
+DirRenames == Menu = "all"
+Flips == Menu \in {"all", "nodir"}
+\* test arguments of an invocation: none, or the names of both data files
+ArgSets == {{}, {"d1", "d2"}}
 
 Init == /\ file = [f \in Files |-> "ok"] /\ gout = "ga" /\ ddn = "x" /\ tdef \in InitDefs
         /\ res = [t \in Tests |-> Nil] /\ bin = NoBin /\ executed = {} /\ reported = [t \in Tests |-> "-"]
-        /\ passed = [t \in Tests |-> {}] /\ edits = 0
+        /\ passed = [t \in Tests |-> {}] /\ ares = [t \in Tests |-> Nil] /\ edits = 0
         /\ hist = <<[act |-> "Init", defs0 |-> tdef]>>
 
 Edit(rec) == /\ edits < MaxEdits /\ edits' = edits + 1 /\ hist' = Append(hist, rec)
-             /\ UNCHANGED <<res, bin, executed, reported, passed>>
+             /\ UNCHANGED <<res, bin, executed, reported, passed, ares>>
 EditFile == \E f \in Files, c \in Content :
               /\ file[f] # c /\ file' = [file EXCEPT ![f] = c] /\ UNCHANGED <<gout, ddn, tdef>>
               /\ Edit([act |-> "EditFile", f |-> f, c |-> c])
@@ -116,7 +134,7 @@ SwapData == /\ file["d1"] # file["d2"]
 RenameGOut == /\ Renames /\ gout' = (IF gout = "ga" THEN "gb" ELSE "ga") /\ UNCHANGED <<file, ddn, tdef>>
               /\ Edit([act |-> "RenameGOut", to |-> gout'])
 \* the entry of the data directory is renamed
-RenameDirEntry == /\ Renames /\ ddn' = (IF ddn = "x" THEN "y" ELSE "x") /\ UNCHANGED <<file, gout, tdef>>
+RenameDirEntry == /\ DirRenames /\ ddn' = (IF ddn = "x" THEN "y" ELSE "x") /\ UNCHANGED <<file, gout, tdef>>
                   /\ Edit([act |-> "RenameDirEntry", to |-> ddn'])
 EditReads == \E t \in Tests : \E r \in Reads(t) :
                /\ tdef[t].reads # r /\ tdef' = [tdef EXCEPT ![t].reads = r] /\ UNCHANGED <<file, gout, ddn>>
@@ -132,41 +150,54 @@ FlipNoOutput == \E t \in Tests :
 DeleteOut == /\ (\E t \in Tests : res[t] # Nil) \/ bin # NoBin
              /\ res' = [t \in Tests |-> Nil] /\ bin' = NoBin
              /\ edits < MaxEdits /\ edits' = edits + 1 /\ hist' = Append(hist, [act |-> "DeletePlzOut"])
-             /\ UNCHANGED <<file, gout, ddn, tdef, executed, reported, passed>>
+             /\ UNCHANGED <<file, gout, ddn, tdef, executed, reported, passed, ares>>
 
 LastIsTest == hist[Len(hist)].act = "Test"
 LastReq == IF LastIsTest THEN hist[Len(hist)].req ELSE {}
+LastArgs == IF LastIsTest THEN hist[Len(hist)].args ELSE {}
 NumTests == Len(SelectSeq(hist, LAMBDA h : h.act = "Test"))
-Test(R) ==
-  \* the same request is repeated only when the previous invocation executed something
-  /\ (LastReq # R \/ executed # {})
+NumArgTests == Len(SelectSeq(hist, LAMBDA h : h.act = "Test" /\ h.args # {}))
+Test(R, A) ==
+  \* the same invocation is repeated only when the previous one executed something
+  /\ (LastReq # R \/ LastArgs # A \/ executed # {})
   /\ NumTests <= MaxEdits + 1
+  \* (bound) at most one invocation with arguments per history, and it requests both tests
+  /\ A # {} => (R = {1, 2} /\ NumArgTests = 0)
   /\ LET run == {t \in R : NeedToRun(t)}
+         \* a result is stored by a passing run without arguments only (cacheOutputFiles)
+         stores(t) == FreshA(t, A) = "pass" /\ (A = {} \/ Flaw_Args)
      IN /\ executed' = run
-        /\ reported' = [t \in Tests |-> IF t \notin R THEN "-" ELSE IF t \in run THEN Fresh(t) ELSE "pass"]
-        \* RemoveTestOutputs before every run; only a passing run stores a result
-        /\ res' = [t \in Tests |-> IF t \in run THEN (IF Fresh(t) = "pass" THEN RH(t) ELSE Nil) ELSE res[t]]
+        /\ reported' = [t \in Tests |-> IF t \notin R THEN "-" ELSE IF t \in run THEN FreshA(t, A) ELSE "pass"]
+        \* RemoveTestOutputs before every run
+        /\ res' = [t \in Tests |-> IF t \in run THEN (IF stores(t) THEN RH(t) ELSE Nil) ELSE res[t]]
         /\ bin' = IF 2 \in R THEN file["b"] ELSE bin
-        /\ passed' = [t \in Tests |-> IF t \in run /\ Fresh(t) = "pass" THEN passed[t] \cup {Inputs(t)} ELSE passed[t]]
-        /\ hist' = Append(hist, [act |-> "Test", req |-> R,
-                                 expect |-> [t \in R |-> Fresh(t)],
+        /\ passed' = [t \in Tests |-> IF t \in run /\ A = {} /\ Fresh(t) = "pass" THEN passed[t] \cup {Inputs(t)} ELSE passed[t]]
+        \* ghost: the hash under which a passing run WITH arguments left no result
+        /\ ares' = [t \in Tests |-> IF t \in run THEN (IF A # {} /\ FreshA(t, A) = "pass" THEN RH(t) ELSE Nil) ELSE ares[t]]
+        /\ hist' = Append(hist, [act |-> "Test", req |-> R, args |-> A,
+                                 expect |-> [t \in R |-> FreshA(t, A)],
                                  inputs |-> [t \in R |-> [cmd |-> tdef[t].reads, files |-> Vis(t), noout |-> tdef[t].noout]],
                                  algoRan |-> run,
-                                 algoMayReuse |-> {t \in R : Inputs(t) \in passed[t]}])
+                                 algoMayReuse |-> {t \in R : Inputs(t) \in passed[t]},
+                                 \* where storing the result of the last run with arguments would now give a wrong answer
+                                 trap |-> {t \in R : A = {} /\ Fresh(t) = "fail" /\ ares[t] # Nil /\ ares[t] = RH(t)
+                                                     /\ TState(t) = "Unchanged"}])
   /\ UNCHANGED <<file, gout, ddn, tdef, edits>>
 Next == EditFile \/ SwapData \/ RenameGOut \/ RenameDirEntry \/ EditReads \/ EditDataList \/ EditRdeps
-        \/ FlipNoOutput \/ DeleteOut \/ \E R \in Reqs : Test(R)
+        \/ FlipNoOutput \/ DeleteOut \/ \E R \in Reqs, A \in ArgSets : Test(R, A)
 Spec == Init /\ [][Next]_vars
 
 \* ------------------------------------------------------------------ properties (algorithm model vs property level)
-C11a == LastIsTest => \A t \in LastReq : reported[t] = Fresh(t)
+C11a == LastIsTest => \A t \in LastReq : reported[t] = FreshA(t, LastArgs)
 \* `passed` already contains the runs of the last invocation; a test that was not executed in it needs an earlier one
 C11b == LastIsTest => \A t \in LastReq \ executed : Inputs(t) \in passed[t]
-C11c == LastIsTest => \A t \in LastReq : Fresh(t) = "fail" => t \in executed
+C11c == LastIsTest => \A t \in LastReq : FreshA(t, LastArgs) = "fail" => t \in executed
 \* an immediately repeated invocation on an unchanged tree re-executes exactly the failing tests
-NoOp == (LastIsTest /\ Len(hist) >= 2 /\ hist[Len(hist) - 1].act = "Test" /\ LastReq \subseteq hist[Len(hist) - 1].req)
+\* (a run with arguments stores nothing, so it and its successor re-execute)
+NoOp == (LastIsTest /\ Len(hist) >= 2 /\ hist[Len(hist) - 1].act = "Test" /\ LastReq \subseteq hist[Len(hist) - 1].req
+         /\ LastArgs = {} /\ hist[Len(hist) - 1].args = {})
           => executed = {t \in LastReq : Fresh(t) = "fail"}
-View == <<file, gout, ddn, tdef, res, bin, executed, reported, passed, edits, LastIsTest, LastReq>>
+View == <<file, gout, ddn, tdef, res, bin, executed, reported, passed, ares, edits, LastIsTest, LastReq, LastArgs>>
 \* history emission for replay into the real binary
 Maximal == edits = MaxEdits
 EmitHist == (LastIsTest /\ (EmitAll \/ Maximal)) =>
